@@ -7,3 +7,21 @@ pub use crate::dual::linalg::linalg_dual::{dmul11_, dmul21_, dmul22_, douter11_,
 pub use crate::dual::linalg::linalg_f64::{
     dfmul21_, dfmul22_, fdmul11_, fdmul21_, fdmul22_, fdsolve, fouter11_,
 };
+
+/// Verification hooks: thin public wrappers over crate-private helpers so that external proof harnesses can reach
+/// them. Compiled only under `--cfg kani` / `--cfg rateslib_verif`; absent from normal builds.
+#[cfg(any(kani, rateslib_verif))]
+pub mod verif_hooks {
+    use ndarray::{Array1, Array2, ArrayView1};
+    use num_traits::Signed;
+
+    pub fn argabsmax<T: Signed + PartialOrd>(a: ArrayView1<T>) -> usize {
+        super::linalg_dual::argabsmax(a)
+    }
+    pub fn row_swap<T>(p: &mut Array2<T>, j: &usize, kr: &usize) {
+        super::linalg_dual::row_swap(p, j, kr)
+    }
+    pub fn el_swap<T>(p: &mut Array1<T>, j: &usize, k: &usize) {
+        super::linalg_dual::el_swap(p, j, k)
+    }
+}
